@@ -59,7 +59,9 @@ NoPend(i, sh, type) == ~\E a \in pend[i] : a.sh = sh /\ a.type = type
 KnowsAll(i) == \A k \in joined \ (left \cup {i}) : remote[i][k] # None
 Claim(i, sh) ==
   /\ i \in joined /\ KnowsAll(i)
-  /\ i \notin left /\ nclaims < MaxClaims /\ local[i][sh] = 0 /\ NoPend(i, sh, "register")
+  \* (also while it already holds the shard: a stream that reconnects to the same instance registers again - a NEW claim with a
+  \* new timestamp, announced like any other)
+  /\ i \notin left /\ nclaims < MaxClaims /\ NoPend(i, sh, "register")
   /\ clock' = clock + 1 /\ nclaims' = nclaims + 1
   /\ local' = [local EXCEPT ![i][sh] = clock + 1] /\ lastClaim' = [lastClaim EXCEPT ![i][sh] = clock + 1]
   /\ held' = [held EXCEPT ![i][sh] = TRUE]
